@@ -62,7 +62,8 @@ inductive Body
   | unregister (payload : Bytes)
   | listServices | listIdentity | listInterfaces | legacy     -- empty payload
   | send (unit : Bool) (iface timeout : Nat) (w : Wrap) (c : Cip)      -- SendRRData / SendUnitData, CPF [null, data]
-  | sendItems (unit : Bool) (iface timeout : Nat) (items : List (Nat × Bytes))  -- another CPF item list
+  | sendItems (unit : Bool) (iface timeout : Nat) (items : List (Nat × Bytes))  -- another CPF item list (count ≠ 2,
+                                                           -- or no unconnected data item in second place)
   | unknownCmd (cmd : Nat) (payload : Bytes)
 deriving Repr, DecidableEq
 
@@ -474,7 +475,13 @@ def Frame.inScope (cfg : Cfg) (d : Dev) (f : Frame) (refusing : List (Nat × Nat
   match f.body with
   | .registerShort bs => bs.length < 4
   | .unknownCmd c _ => !Generated.knownCommands.contains c
-  | .sendItems _ _ _ items => items.all fun (t, _) => !Generated.cpfItemTypes.contains t
+  | .sendItems _ _ _ items =>
+    -- items of unrecognized type; or, in a list of other than two items, unconnected data items that carry a bare
+    -- request (anything not starting with 0x52 / 0xD2 is left unparsed by the item parser)
+    items.all fun (t, bs) =>
+      !Generated.cpfItemTypes.contains t ||
+        (t == Generated.cpfUnconnected && items.length != 2 && !bs.isEmpty
+          && bs.head? != some Generated.svcUnconnectedSend && bs.head? != some (Generated.svcUnconnectedSend + 128))
   | .send _ _ _ w c =>
     -- a bare request whose first byte is 0x52 is taken for an Unconnected Send by the CPF item parser
     c.inScope d refusing &&
